@@ -211,9 +211,10 @@ def make_body(spec, falsify=False):
                     pay = {"create_id": inp.int(f"cid{delivered_n}"), "goodness": inp.int(f"good{delivered_n}"),
                            "bell": inp.int(f"bell{delivered_n}", 0, 3), "seq": delivered_n}
                     phys = 0
-                    while phys in ex._used_physical_qubit_addresses or phys in used_phys:
-                        phys += 1
                     if tp == "K":
+                        # the link layer takes the qubit through the executor's helper, which must reserve it (a response that is still
+                        # waiting for its virtual qubit keeps its physical one)
+                        phys = ex._get_unused_physical_qubit()
                         used_phys.add(phys)
                         resp = LinkLayerOKTypeK(type=ReturnType.OK_K, create_id=pay["create_id"], logical_qubit_id=phys,
                                                 directionality_flag=0 if role == "create" else 1, sequence_number=pay["seq"],
